@@ -412,7 +412,7 @@ def explore_dt(ctx, cases):
             terms.append(dt_term(c, r5 + [comb]))
             meta.append((ci, 'rules', r5 + [comb]))
         # getDt on the real model (Vm, area and volume factors of the model objects)
-        if k <= len(PNAMES):
+        if k <= len(PNAMES) and (not ctx.quick or ci % 2 == 0 or c.get("corpus")):
             g, dtm, aF, vF = impl_getdt(c, tuple(range(k)))
             if np.isfinite(g):
                 c2 = copy.deepcopy(c)
@@ -425,7 +425,7 @@ def explore_dt(ctx, cases):
                 if all(np.isfinite(r5b)):
                     terms.append(dt_term(c2, r5b + [g]))
                     meta.append((ci, 'getDt', r5b + [g]))
-    res = ctx.coq_eval('dt', HEADER, terms) if terms else []
+    res = ctx.coq_eval('dt', HEADER, terms, shard=14) if terms else []
     dis = []
     for (ci, what, impl6), r in zip(meta, res):
         tie, verdict = r
@@ -675,6 +675,35 @@ def fake_sites(elements):
                 us = sum(xd[e] for e in names if e not in inter)
                 out.append(('DiffusionParameters.computeMobility:mobility[%s]' % ph, list(np.array(md.mobility)[0][pi]), [B(e) * f * xd[e] / us for e in names]))
             out.append(('DiffusionParameters.computeMobility:chemical_potentials', list(np.atleast_1d(np.array(md.chemical_potentials)[0])), [MUe[e] for e in names]))
+            # the same queries answered from the cache: second call with the same HashTable, and the second of two
+            # nodes with the same composition inside one call - a stored value must be in the user's element order too
+            import kawin.diffusion.HomogenizationParameters as HPm
+            import importlib
+            HPm = importlib.import_module('kawin.diffusion.HomogenizationParameters')
+            exp_mob = {}
+            for ph, xd, f in (('MATRIX', xM, 1.0), ('PREC', xP, 2.0)):
+                us = sum(xd[e] for e in names if e not in inter)
+                exp_mob[ph] = {e: B(e) * f * xd[e] / us for e in names}
+
+            def add_md(tag, mobs, mus):
+                for pi, ph in enumerate(('MATRIX', 'PREC')):
+                    out.append(('DiffusionParameters.computeMobility (%s):mobility[%s]' % (tag, ph), list(np.array(mobs)[pi]), [exp_mob[ph][e] for e in names]))
+                out.append(('DiffusionParameters.computeMobility (%s):chemical_potentials' % tag, list(np.atleast_1d(mus)), [MUe[e] for e in names]))
+            ht = DP.HashTable()
+            md1 = DP.computeMobility(mt, np.array([xuser]), np.array([900.0]), hashTable=ht)
+            md2 = DP.computeMobility(mt, np.array([xuser]), np.array([900.0]), hashTable=ht)
+            add_md('first call with a HashTable', np.array(md1.mobility)[0], np.array(md1.chemical_potentials)[0])
+            add_md('second call, same HashTable', np.array(md2.mobility)[0], np.array(md2.chemical_potentials)[0])
+            ht = DP.HashTable()
+            md3 = DP.computeMobility(mt, np.array([xuser, xuser]), np.array([900.0, 900.0]), hashTable=ht)
+            add_md('second node with the same composition', np.array(md3.mobility)[1], np.array(md3.chemical_potentials)[1])
+            hp = HPm.HomogenizationParameters()
+            exp_avg = [0.75 * exp_mob['MATRIX'][e] + 0.25 * exp_mob['PREC'][e] for e in names]
+            ht = DP.HashTable()
+            for tag in ('first call with a HashTable', 'second call, same HashTable'):
+                am, mu = HPm.computeHomogenizationFunction(mt, np.array([xuser]), np.array([900.0]), hp, hashTable=ht)
+                out.append(('HomogenizationParameters.computeHomogenizationFunction (%s):average mobility' % tag, list(np.atleast_1d(am)), exp_avg))
+                out.append(('HomogenizationParameters.computeHomogenizationFunction (%s):chemical_potentials' % tag, list(np.atleast_1d(mu)), [MUe[e] for e in names]))
     finally:
         for (mod, name), fn in saved.items():
             setattr(mod, name, fn)
@@ -870,7 +899,7 @@ def explore_sites(ctx, cases):
         if all(np.isfinite(v) for v in r.values()):
             terms.append(sites_term(c, r, m, x))
             meta.append((c, r))
-    res = ctx.coq_eval('sites', HEADER, terms) if terms else []
+    res = ctx.coq_eval('sites', HEADER, terms, shard=8) if terms else []
     dis = []
     for (c, r), v in zip(meta, res):
         if v is not None:
@@ -1061,6 +1090,47 @@ def db_query(dbkey, order, X, T):
             r['mu:' + e] = float(np.array(md.chemical_potentials)[0][i])
         return r
     attempt('mobility', mob)
+
+    # the same mobility / homogenization queries answered from the cache (state carried between calls)
+    def md_byname(mobs, ph, mus):
+        r = {}
+        for pi, pn in enumerate(ph):
+            for i, e in enumerate(order):
+                r['%s:%s' % (pn, e)] = float(mobs[pi][i])
+        for i, e in enumerate(order):
+            r['mu:' + e] = float(mus[i])
+        return r
+
+    def mob_second_call():
+        from kawin.diffusion.DiffusionParameters import HashTable
+        ht = HashTable()
+        computeMobility(th, x, T, hashTable=ht)
+        md = computeMobility(th, x, T, hashTable=ht)
+        return md_byname(np.array(md.mobility)[0], list(np.array(md.phases)[0]), np.array(md.chemical_potentials)[0])
+
+    def mob_second_node():
+        from kawin.diffusion.DiffusionParameters import HashTable
+        md = computeMobility(th, np.array([x, x]), np.array([T, T]), hashTable=HashTable())
+        return md_byname(np.array(md.mobility)[1], list(np.array(md.phases)[1]), np.array(md.chemical_potentials)[1])
+
+    def homog(second):
+        def f():
+            import importlib
+            from kawin.diffusion.DiffusionParameters import HashTable
+            HPm = importlib.import_module('kawin.diffusion.HomogenizationParameters')
+            hp = HPm.HomogenizationParameters()
+            ht = HashTable() if second else None
+            am, mu = HPm.computeHomogenizationFunction(th, x, T, hp, hashTable=ht)
+            if second:
+                am, mu = HPm.computeHomogenizationFunction(th, x, T, hp, hashTable=ht)
+            r = {'avg:' + e: float(np.atleast_1d(am)[i]) for i, e in enumerate(order)}
+            r.update({'mu:' + e: float(np.atleast_1d(mu)[i]) for i, e in enumerate(order)})
+            return r
+        return f
+    attempt('mobility[second call, same HashTable]', mob_second_call)
+    attempt('mobility[second node, same composition]', mob_second_node)
+    attempt('homogenization', homog(False))
+    attempt('homogenization[second call, same HashTable]', homog(True))
     if DBS[dbkey]['multi']:
         def df(method):
             def f():
@@ -1131,12 +1201,29 @@ def oracle_db(dbkey, X, T, orders=None, rtol=1e-6):
                     same = (val == v0) if isinstance(val, str) or isinstance(v0, str) else \
                         (abs(val - v0) <= rtol * max(abs(val), abs(v0))) or (np.isnan(val) and np.isnan(v0))
                     if not same:
-                        hits.append(('element_order_equivariant', q.split('[')[0],
+                        hits.append(('element_order_equivariant', q.split('[')[0] + (' from the cache' if '[second' in q else ''),
                                      '%s on %s at %r, T=%g: %s is %r with elements listed as %s and %r when listed as %s'
                                      % (q, dbkey, X, T, k, v0, list(od0), val, list(od))))
                         break
                 else:
                     ref_vals[k] = (od, val)
+    # an answer served from the cache must be the cache-free answer (same element order, by name)
+    for od in orders:
+        for q in res[od]:
+            if '[second' not in q:
+                continue
+            base, hit = res[od].get(q.split('[')[0]), res[od][q]
+            if isinstance(base, str) or isinstance(hit, str):
+                if base != hit and isinstance(hit, str) != isinstance(base, str):
+                    hits.append(('element_order_equivariant', q.split('[')[0] + ' from the cache', '%s on %s with elements %s: %r, cache-free: %r' % (q, dbkey, list(od), hit, base)))
+                continue
+            for k in hit:
+                a, b = base.get(k), hit[k]
+                if a is not None and not (abs(a - b) <= rtol * max(abs(a), abs(b)) or (np.isnan(a) and np.isnan(b))):
+                    hits.append(('element_order_equivariant', q.split('[')[0] + ' from the cache',
+                                 '%s on %s at %r, T=%g with elements listed as %s: %s is %r, the cache-free answer is %r'
+                                 % (q, dbkey, X, T, list(od), k, b, a)))
+                    break
     return hits
 
 
@@ -1271,7 +1358,7 @@ def run(ctx):
 
     # ---- phase order --------------------------------------------------------------------------
     t0 = time.time()
-    cases = corpus_cases('dt') + [c for c in (gen_dt_case(ctx.rng, i) for i in range(120 if quick else 3000)) if usable_dt_case(c)]
+    cases = corpus_cases('dt') + [c for c in (gen_dt_case(ctx.rng, i) for i in range(90 if quick else 3000)) if usable_dt_case(c)]
     dis, hits = explore_dt(ctx, cases)
     report_dt_hits(ctx, hits)
     ctx.notes['timing']['step_size_rules'] = round(time.time() - t0, 1)
